@@ -22,7 +22,7 @@ from vlib import sqlo
 
 PROP = 'C12'
 META = {
-    'extractors': [],
+    'extractors': ['graph'],
     'technique': ('Lean 4 proof (induction on recursion fuel over a step-by-step model of destroySelf; closure, frame and '
                   'cache postconditions; divergence on cascade cycles) + differential correspondence on generated reference graphs'),
     'level_text': ('Theorems C12_*: for every schema, population and victim, a successful model destroySelf deletes exactly '
@@ -36,7 +36,8 @@ META = {
     'rule': ('case = (schema, population, link rows, victim, cached?); distinct = distinct canonical case text; '
              'non-trivial = the victim is referenced by at least one row or link row'),
     'trusted': ['Model/Graph.lean mirrors main.py destroySelf / findDependencies / findDependantColumns by hand (tied by the correspondence run)',
-                'no part of destroySelf is table-like data, so nothing is extracted: the tie is the differential run (5 streams, every case)'],
+                'the two link-row DELETE statements of destroySelf (template, column, loop guard) are read from the AST into '
+                'Extracted/Graph.lean and the model deletes by the extracted column; the rest of destroySelf is control flow, tied by the differential run'],
     'modelled': ['SQLite engine (DELETE / UPDATE / lazy cursor of the dependent select; executed, not verified)',
                  'Python recursion limit modelled as fuel; weakref/GC of cached instances not modelled (instances are held by the harness)'],
     'assumptions': ['the transaction scenario has no Lean model of Transaction.commit: the model answer used for it is the plain destroySelf '
@@ -107,7 +108,7 @@ def build(classes, cached, mode='plain', case=None):
     out = []
     tables = set()
     for k, cd in enumerate(decl):
-        d = {'sqlmeta': type('sqlmeta', (), {'registry': reg}), '_connection': conn}
+        d = {'sqlmeta': type('sqlmeta', (), {'registry': reg, 'lazyUpdate': bool(cd.get('lazy'))}), '_connection': conn}
         for f, (t, p) in enumerate(cd['fks']):
             d['f%d' % f] = ForeignKey(NAMES[t], cascade=POL[p], default=None)
         for jx, (o, t, own) in enumerate(cd['joins']):
@@ -163,6 +164,8 @@ def fill(conn, classes, tables, rows, links):
         kw = {'f%dID' % f: v for f, v in enumerate(vals) if v is not None}
         if kw:
             objs[(c, i)].set(**kw)
+            if objs[(c, i)].sqlmeta.lazyUpdate:
+                objs[(c, i)].syncUpdate()
     for t, a, b in links:
         conn.query('INSERT INTO lt%d (ca, cb) VALUES (%d, %d)' % (t, a, b))
     return objs
@@ -388,6 +391,9 @@ def gen_schema(rng):
                 t = rng.choice([0, (k + 1) % n])
             p = rng.choice(['c', 'c', 'c', 'r', 'n', 'n', 'k'])
             classes[k]['fks'].append([t, p])
+    for k in range(n):
+        if rng.random() < 0.25:
+            classes[k]['lazy'] = True      # sqlmeta.lazyUpdate: assignments are pending until syncUpdate()
     nt = rng.choice([0, 0, 1, 1, 2])
     for t in range(nt):
         k1 = rng.randrange(n)
